@@ -529,6 +529,49 @@ def translator_selfcheck(ctx):
         ctx.count('translator-selfcheck')
 
 
+def debug_slice(ctx):
+    """the exporters (write_fits, write_reg, save/load, mim2fits, mim2reg) and a sample of histories again with the
+    root and 'Aegean' loggers at DEBUG: the files must describe the region exactly as at the default level"""
+    tmp = ctx.tmpdir()
+    cases = specials() + edge_regions(ctx, False)[:3] + coincidence_regions(3, 4)[:6]
+    for _ in range(8):
+        m, items = c8.rand_history(ctx.rng, False)
+        cases.append((m, [it for it in items if it[0] not in c8.FILE_KINDS]))
+    seen = set()
+    with c8.debug_logging():
+        for k, (m, items) in enumerate(cases):
+            case = dict(m=m, items=items, env='logging-debug')
+            try:
+                _, probs = export_checks(ctx, m, items, tmp, 'dbg%d' % k, do_reg=True, via_mimas=(k % 3 == 2))
+            except HistoryError:
+                continue
+            except Exception as e:
+                probs = [('export-raises', 'export raised %s: %s' % (type(e).__name__, e))]
+            for what, detail in probs:
+                if what not in seen:
+                    seen.add(what)
+                    ctx.fail('spec', case, '[DEBUG logging] ' + detail,
+                             dict(site='regions.Region', what=what, env='logging-debug', level_maxdepth_lost=False))
+            ctx.count('debug-logging slice')
+            ctx.case(case, nontrivial_key=None if probs else 'debug m%d %s' % (m, json.dumps(items, sort_keys=True)))
+        for k in range(3):
+            m = 4
+            A = [['N', 3, c8.rand_pixels(ctx.rng, 3, 4)]]
+            B = [['N', 4, c8.rand_pixels(ctx.rng, 4, 4)]]
+            case = dict(scenario='files', m=m, A=A, B=B, variant=VARIANTS[k], env='logging-debug')
+            try:
+                probs = file_scenario(ctx, m, A, B, VARIANTS[k], tmp)
+            except HistoryError:
+                continue
+            for what, detail in probs:
+                if ('f', what) not in seen:
+                    seen.add(('f', what))
+                    ctx.fail('spec', case, '[DEBUG logging] ' + detail,
+                             dict(site='regions.Region.load/save + MIMAS', what=what, env='logging-debug',
+                                  level_maxdepth_lost=False))
+            ctx.count('debug-logging slice')
+
+
 def run(ctx):
     common.use_repo()
     translator_selfcheck(ctx)
@@ -536,6 +579,7 @@ def run(ctx):
     cases += coincidence_regions(5, 5) if ctx.quick else coincidence_regions(12, 7)
     run_cases(ctx, cases, not ctx.quick)
     run_file_scenarios(ctx, 25 if ctx.quick else 200)
+    debug_slice(ctx)
 
 
 def search(ctx):
@@ -547,13 +591,20 @@ def search(ctx):
     try:
         run_cases(ctx, gen_cases(ctx, 60) + edge_regions(ctx, False) + coincidence_regions(8, 6), False)
         run_file_scenarios(ctx, 25)
+        debug_slice(ctx)
     finally:
         ctx.driver_ok = saved
 
 
 def replay(ctx, rec):
+    import contextlib
     common.use_repo()
     c = rec['case']
+    with (c8.debug_logging() if c.get('env') == 'logging-debug' else contextlib.nullcontext()):
+        replay_inner(ctx, rec, c)
+
+
+def replay_inner(ctx, rec, c):
     if c.get('scenario') == 'files':
         for what, detail in file_scenario(ctx, c['m'], c['A'], c['B'], c['variant'], ctx.tmpdir()):
             ctx.fail('spec', c, detail, dict(site='regions.Region.load/save + MIMAS', what=what, history_dependence=True,
